@@ -2,6 +2,10 @@
 """Generates MANIFEST.json. Edit BUILT / texts here, run, commit."""
 import json
 BUILT = {
+ "C06": dict(level="exploration", technique="bounded-exhaustive product over slot sets, supply forms, content kinds and instance arrangements against expected content per slot position",
+   text="A header/default/footer component used by includers supplying every subset of its slots in every syntactic form x 4 content kinds x 4 instance arrangements; scoped slots through 4 components x 4 consumer forms; the same slot used twice; 5 nested-component arrangements; layout-inherited slots. Expected text and bound attributes at each slot position.",
+   note="Trusts the expected-content construction in checks/c06.go. Whitespace around spliced nodes is insignificant. Nesting depth 2, at most 2 instances side by side.",
+   ref="DESIGN.md §3 C06"),
  "C05": dict(level="exploration", technique="bounded-exhaustive product of prop forms, collisions, :required spellings, include shapes and shorthand against a reference scope model",
    text="17 forms of prop a (omitted, static, interpolated, bound to 11 typed values, v-bind:) x 3 forms of prop b x includer collision x front-matter collision x 5 :required spellings x 4 shapes (single, twice, in v-for, nested) x explicit/shorthand: values and Go types printed inside the component, what the includer's following content sees, error iff a required name is missing (naming it, with no output), shorthand byte-identical.",
    note="Trusts the scope model in checks/c05.go. A required name visible from the includer or the front-matter without being passed, and bindings of nil/undefined, are unconstrained. Include depth <= 2.",
